@@ -27,4 +27,12 @@ static void q_run_slice(int r, int t) {
   ir_cur = t; ir_budget = in_budget[r][t]; ir_yielded = 0; ir_blocked[t] = 0;
   q_thread(t);
 }
+/* after the symbolic rounds: let every unfinished thread run on, one after the other, with a large concrete budget (Q_FINISH passes) - a deterministic tail that brings the
+   schedule to its end; a thread that is still unfinished afterwards is genuinely blocked (its blocking call is not enabled although nobody else can run) */
+#ifndef Q_FINISH
+#define Q_FINISH 2
+#endif
+static void q_finish(void) {
+  for (int p = 0; p < Q_FINISH; p++) for (int t = 1; t <= Q_NTHR; t++) if (!tdone[t]) { ir_cur = t; ir_budget = 64; ir_yielded = 0; ir_blocked[t] = 0; q_thread(t); }
+  ir_cur = 0; }
 #endif
